@@ -241,3 +241,35 @@ for _fmt, _sep, _file in (('.10e', '\t', 'log.txt'), ('.3f', ';', 'out/log.dat')
             fm = [t for t in all_toks if isinstance(t, tuple)]
             ctx.prove(f'row_values_and_format[{k}]', len(fm) == 4 and all(t[1] is v and t[2] == fmt for t, v in zip(fm, vals)))
         ctx.prove('counter', it.getattr(mod, 'iter') == 3)
+
+
+for _layout in ('row_major', 'transposed_view'):
+    @harness(P, f'ScalarToFile.matrix_columns[{_layout}]', targets=[f'{IO}:ScalarToFile._response', f'{IO}:ScalarToFile._prepare'])
+    def h_scalar_matrix(ctx, it, layout=_layout):
+        """a matrix-valued signal: the column headed  tag[i, j]  holds the entry [i, j] of the state in every row - for a row-major matrix and for a
+        transposed view (column-major memory: numpy's iterator then runs in memory order; header names and values must come in the SAME order)"""
+        import numpy as np
+        s1 = mk_signal(it, None); it.setattr(s1, 'tag', 'H')
+        mod = it.new_object(it.get_function(f'{IO}:ScalarToFile'), sig_in=[s1], sig_out=[])
+        it.call(it.getattr(mod, '_prepare'), ['log.txt', '.4e', '\t'])
+        header = None
+        for k in range(2):
+            base = np.array([[ctx.sym(f'h{k}_{i}{j}', 'real') for j in range(3)] for i in range(2)], dtype=object)
+            M = CArr(base if layout == 'row_major' else base.T, 'real')            # shape (2,3) C-order / shape (3,2) view in column-major memory
+            it.setattr(s1, 'state', M)
+            it.trace.clear()
+            it.call(it.getattr(mod, '_response'), [M])
+            toks = flat_tokens([w[2] for w in it.trace if w[0] == 'write'])
+            txt, holes = text_of(toks)
+            fm = [t for t in toks if isinstance(t, tuple)]
+            if k == 0:
+                header = txt.split('\n')[0].split('\t')
+                ctx.prove('header.columns', len(header) == 1 + M.size and header[0] == 'Iteration')
+            ctx.prove(f'row{k}.one_value_per_column', len(fm) == M.size)
+            if header is None or len(header) != 1 + M.size or len(fm) != M.size:
+                return
+            ok = True
+            for col, t in zip(header[1:], fm):
+                ij = tuple(int(v) for v in col[col.index('[') + 1:col.index(']')].split(','))
+                ok = ok and (t[1] is M.data[ij])
+            ctx.prove(f'row{k}.value_under_its_own_name', ok)
